@@ -16,7 +16,7 @@ PATHS = ["/v1/health", "/v1/metrics", "/v1/backends", "/v1/backends/add", "/v1/b
 ODD_PATHS = ["/v1/unknown", "/v1/backends/", "/", "/v1/health/", "/v1", "/V1/backends", "/v1/backends/add/x"]
 TOKENS = ["-", "s3cr3t", "tok en", "Bearer", "t"]
 NETS4 = ["10.0.0.0/8", "192.168.1.0/24", "192.168.1.5", "203.0.113.0/30", "10.1.2.3/8", "0.0.0.0/0", "127.0.0.1"]
-NETS6 = ["2001:db8::/32", "::1", "fe80::/10", "2001:db8:0:1::/64"]
+NETS6 = ["2001:db8::/32", "::1", "fe80::/10", "2001:db8:0:1::/64", "2001:db8:0:1::10", "2001:db9:5::7", "::2"]
 BADNETS = ["not-an-ip", "10.0.0.0/33", "10.0.0/8", "10.0.0.0/", "/8", "2001:db8::/129", "1.2.3.4.5", "", " ", "\t", "", " "]
 
 
@@ -43,6 +43,17 @@ def peer(rng, nets):
             v = net.network_address + rng.randrange(min(net.num_addresses, 1 << 16))
         except ValueError:
             v = None
+    if nets and rng.random() < 0.3:
+        # a neighbour of a listed entry: next address, same /64, same /32 (a listed single host
+        # covers that host only, a listed network nothing beyond its last address)
+        try:
+            net = ipaddress.ip_network(rng.choice(nets), strict=False)
+            off = rng.choice([1, -1, 2, 1 << 8, 1 << 16, 1 << 64, 1 << 80, (1 << 95) + 3, net.num_addresses, net.num_addresses + 1])
+            cand = int(net.network_address) + off
+            if 0 <= cand < (1 << (32 if net.version == 4 else 128)):
+                v = ipaddress.ip_address(cand) if net.version == 4 else ipaddress.IPv6Address(cand)
+        except ValueError:
+            pass
     if v is None:
         v = ipaddress.ip_address(rng.getrandbits(32)) if rng.random() < 0.7 else ipaddress.ip_address(rng.getrandbits(128))
     if v.version == 4:
@@ -153,6 +164,17 @@ def oracle(ep, outs):
     return fails
 
 
+def startup_oracle(ep, outs):
+    o = outs[0] if outs else ""
+    lvl = ep[0].split()[1]
+    if o == "config-unchanged level=" + ("info" if lvl == "-" else lvl):
+        return []
+    if o.startswith("config-unchanged"):
+        return ["configured log level %s, the logger runs at %s" % ("(omitted: info)" if lvl == "-" else lvl, o.split("level=")[-1])]
+    return [
+        "start-up changes the configuration the admin API enforces (token / lists are read from it on every request): %s -> %s" % (ep[0], o)]
+
+
 def check(ctx):
     ctx.assumptions += [
         "net.ParseIP / net.ParseCIDR / IPNet.Contains are taken as given: the model works on parsed values, the generator renders values into address strings (v4, v6 compressed/exploded, IPv4-mapped, with/without port) and a fixed set of malformed strings",
@@ -166,6 +188,10 @@ def check(ctx):
     nep = 2500 if ctx.thorough() else 400
     episodes = C.load_corpus(ID) + [gen_episode(ctx.rng, ctx.thorough()) for _ in range(nep)]
     bad = d.check(episodes, oracle=oracle, label="admin")
+    # the configuration object the mux reads on every request, after everything main() does at start-up
+    ov2 = C.make_overlay(ctx, clock_pkgs=[], harness_pkgs=["cmd/helios"], hmap={"cmd/helios": "helios"})
+    hel = C.go_test_build(ctx, "cmd/helios", ov2, name="helios")
+    C.Differential(ctx, hel, timeout=300).check([["startup debug"], ["startup info"], ["startup error"]], oracle=startup_oracle, label="admin-startup")
     classes = {}
     nontriv = set()
     if bad == 0:
